@@ -1392,7 +1392,7 @@ def eval_cancel_command(ctx, patterns=(), force=False, fail=None):
 def cancel_command_witness(ctx):
     """C17: selection, prompt and failure independence of `gwf cancel` on a finite witness table."""
     diffs, n = [], 0
-    for patterns, force in ((("[AC]",), False), (("[AC]",), True), (("C", "A"), True), ((), True), ((), False)):
+    for patterns, force in ((("[AC]",), False), (("[AC]",), True), (("C", "A"), True), (("nomatch*",), True), (("nomatch*",), False), ((), True), ((), False)):
         out, err = eval_cancel_command(ctx, patterns, force)
         if err:
             return n, diffs, err
@@ -1400,7 +1400,7 @@ def cancel_command_witness(ctx):
         ev = out["events"]
         kinds = [e[0] for e in ev]
         cancelled = [e[1] for e in ev if e[0] == "cancel"]
-        want = ["A", "C"] if patterns else ["A", "B", "C"]
+        want = ([] if patterns == ("nomatch*",) else ["A", "C"]) if patterns else ["A", "B", "C"]
         label = f"gwf cancel {' '.join(patterns)}{' --force' if force else ''}"
         if out["raised"]:
             diffs.append(f"`{label}` ends with {out['raised']}")
@@ -3112,7 +3112,8 @@ def eval_task(ctx, deps=None, rc=0, timeout=False, spawn_fails=False, log_fails=
         "attr:open": lambda recv, mode="r", *a, **k: h_open(str(recv), k.get("mode", mode)),
         "attr:write": lambda recv, data, *a: ev.append(("write", getattr(recv, "path", None), data)),
         "attr:flush": lambda recv, *a: None, "attr:cancel": lambda recv, *a: ev.append(("task.cancel", getattr(recv, "dep", None))),
-        "attr:close": lambda recv, *a: ev.append(("close", getattr(recv, "path", None))), "attr:fileno": lambda recv: 7, "os.fsync": lambda fd: None,
+        "attr:close": lambda recv, *a: interp._unwind_exitstack(recv, 0) if isinstance(recv, Obj) and recv._name == "exitstack" else ev.append(("close", getattr(recv, "path", None))),
+        "attr:fileno": lambda recv: 7, "os.fsync": lambda fd: None,
         "attr:read": lambda recv, n_=-1: recv.read(n_), "attr:readline": lambda recv: recv.readline(), "attr:readuntil": lambda recv, sep=b"\n": recv.readuntil(sep),
         "attr:at_eof": lambda recv: recv.pos >= len(recv.data),
         "attr:readexactly": lambda recv, n_: recv.read(n_),
